@@ -485,6 +485,48 @@ func emit(g group) (string, []string) {
 			}
 			fmt.Fprintf(&b, "/-- %s: %s — comment markers tested by strings.HasPrefix, in order (strip expression `t[%s:]`) -/\ndef %s : List String := [%s]\n", f.File, f.Func, ms[0].strip, f.Name, strings.Join(names, ", "))
 			fmt.Fprintf(&b, "/-- bytes stripped when the marker matched -/\ndef markerStrip : String → Nat\n%s\n  | _ => 0\n", strings.Join(cases, "\n"))
+		case "assigns":
+			// Bool: does the function assign `Ident` anywhere at its top level (any right-hand side)?
+			fd := findFunc(af, f.Func)
+			if fd == nil {
+				fail("function not found")
+				continue
+			}
+			ok, rhs := resets(fd, f.Ident)
+			fmt.Fprintf(&b, "/-- %s: does `%s` assign `%s` at its top level? (rhs `%s`) %s -/\ndef %s : Bool := %v\n", f.File, f.Func, f.Ident, rhs, f.Doc, f.Name, ok)
+		case "ifreturns":
+			// Bool: does the Sel-th `if` (source order) of the function have a body that ends in a bare `return`?
+			fd := findFunc(af, f.Func)
+			if fd == nil {
+				fail("function not found")
+				continue
+			}
+			var ifstmts []*ast.IfStmt
+			ast.Inspect(fd.Body, func(n ast.Node) bool {
+				if x, ok := n.(*ast.IfStmt); ok {
+					ifstmts = append(ifstmts, x)
+				}
+				return true
+			})
+			want := f.Ident // printed condition text to look for
+			found := false
+			val := false
+			for _, x := range ifstmts {
+				if show(x.Cond) == want {
+					found = true
+					if n := len(x.Body.List); n > 0 {
+						if r, ok := x.Body.List[n-1].(*ast.ReturnStmt); ok && len(r.Results) == 0 {
+							val = true
+						}
+					}
+					break
+				}
+			}
+			if !found {
+				fail("if with condition `" + want + "` not found")
+				continue
+			}
+			fmt.Fprintf(&b, "/-- %s: %s — does the body of `if %s` end in a bare return? %s -/\ndef %s : Bool := %v\n", f.File, f.Func, want, f.Doc, f.Name, val)
 		case "resets":
 			fd := findFunc(af, f.Func)
 			if fd == nil {
